@@ -1,6 +1,6 @@
 (* C04 — fused variable flips act as input/output bit inversion. *)
 From Coq Require Import List NArith Bool. Import ListNotations.
-From BddVerif Require Import Model.Bdd Model.Apply Model.Ops Proofs.Sem Proofs.Canon Proofs.ApplySem Proofs.ApplyTop Proofs.TernSem.
+From BddVerif Require Import Model.Bdd Model.Apply Model.Ops Proofs.Sem Proofs.Canon Proofs.ApplySem Proofs.ApplyTop Proofs.TernSem Proofs.FusedUnfused.
 Open Scope N_scope.
 
 (* r(v) = g(v with the output-flip variable inverted), g(u) = op(a(u with a's flip inverted), b(u with b's flip inverted));
@@ -38,3 +38,21 @@ Theorem C04_ternary_flip_bounds : forall A B C fa fb fc fo op, wf A -> wf B -> w
     flip_ok (nvars A) fa && flip_ok (nvars A) fb && flip_ok (nvars A) fc && flip_ok (nvars A) fo = false)).
 Proof. exact ternary_panic_iff. Qed.
 Print Assumptions C04_ternary_flip_bounds.
+
+(* the fused result is identical (as an array) to performing the flips and the operator as separate steps:
+   flip_var b x is the public-API flip `fused_binary_flip_op (b, Some x) (b, None) None (left projection)` *)
+Theorem C04_fused_eq_unfused : forall A B fa fb fo op,
+  wf A -> wf B -> nvars A = nvars B -> flips_ok (nvars A) fa fb fo = true -> total2 op -> consistent2 op ->
+  forall A' B' R U, flip_opt fa A = Ok A' -> flip_opt fb B = Ok B' -> binary_op A' B' op = Ok R -> flip_opt fo R = Ok U ->
+  fused_binary_flip_op A B fa fb fo op = Ok U.
+Proof. exact fused_eq_unfused. Qed.
+Print Assumptions C04_fused_eq_unfused.
+
+(* ... and the separate steps always succeed under the same hypotheses, so the statement above is not vacuous *)
+Theorem C04_unfused_total : forall A B fa fb fo op,
+  wf A -> wf B -> nvars A = nvars B -> flips_ok (nvars A) fa fb fo = true -> total2 op -> consistent2 op ->
+  exists A' B' R U, flip_opt fa A = Ok A' /\ flip_opt fb B = Ok B' /\ binary_op A' B' op = Ok R /\ flip_opt fo R = Ok U /\
+    Canonical U /\ nvars U = nvars A /\
+    forall v, eval U v = bop_of op (eval A (oflip fa (oflip fo v))) (eval B (oflip fb (oflip fo v))).
+Proof. exact unfused_total. Qed.
+Print Assumptions C04_unfused_total.
